@@ -42,7 +42,7 @@ def _case(draw, thorough):
         if r > 0 or draw(st.integers(0, 3)) == 0:
             for _ in range(draw(st.integers(0, 2))):
                 k = draw(st.sampled_from(["replace_init", "replace_init", "drop_init", "restore_init", "add_metric",
-                                          "assign_metrics", "add_cons", "add_lmi", "decompose", "decompose", "new_sample"]))
+                                          "assign_metrics", "add_cons", "add_lmi", "decompose", "decompose", "new_sample", "new_adjoint_sample"]))
                 if k == "replace_init":
                     # E index of the initial-condition expression is unknown here: use the interpreter's convention
                     edits.append(["replace_init_same", draw(st.sampled_from([0.25, 0.5, 2, 4, 1, 9]))])
@@ -65,6 +65,8 @@ def _case(draw, thorough):
                     edits.append(["decompose", draw(st.integers(0, 3)), draw(st.integers(0, 40)), draw(st.integers(0, 3))])
                 elif k == "new_sample":
                     edits.append(["new_sample", draw(st.integers(0, 40))])
+                elif k == "new_adjoint_sample":
+                    edits.append(["new_adjoint_sample", draw(st.integers(0, 40))])
                 else:
                     edits.append(["add_lmi_t", draw(st.integers(0, 5)), draw(st.booleans())])
         opts = draw(gen.solve_options(wrappers=("cvxpy", "cvxpy", "cvxpy", "mosek"),
@@ -87,7 +89,13 @@ def fixed_cases(tier):
     part = [["partition", 2]] + base + [["block", 0, 0, 0], ["block", 0, 3, 1]]
     sym = [["func", "SymmetricLinearOperator", {"mu": 0.1, "L": 1}, None, False], ["init_point", None],
            ["gd", 0, 0, 0.5], ["expr", "sq", 0], ["cons", "init", 1, "<=", 1, None], ["expr", "sq", 2], ["metric", 2, None]]
+    lin = [["func", "LinearOperator", {"L": 2}, None, False], ["init_point", None], ["new_point"], ["grad", 0, 0], ["adjoint", 0, 2],
+           ["expr", "sq", 0], ["cons", "init", 0, "<=", 1, None], ["expr", "sq", 1], ["cons", "pep", 1, "<=", 0.25, None],
+           ["expr", "sq", 2], ["metric", 2, None]]
     return [
+        {"instrs": lin, "cls": "fixed", "rounds": [{"edits": [], "opts": o, "new_held": []},
+                                                   {"edits": [["new_adjoint_sample", 1]], "opts": o, "new_held": []},
+                                                   {"edits": [["new_adjoint_sample", 0], ["new_sample", 1]], "opts": o, "new_held": []}]},
         {"instrs": base, "cls": "fixed", "rounds": [
             {"edits": [], "opts": o, "new_held": [["derP", 0, 1, 1], ["derE", 3, 1, 2]]},
             {"edits": [["replace_init_same", 4]], "opts": dict(o, ret="primal"), "new_held": []},
@@ -147,6 +155,11 @@ def apply_edit(it, ed, state):
         leaf = [i for i, m in enumerate(env.Fmeta) if m.get("leaf")]
         if leaf:
             it.step(["grad", leaf[0], ed[1]])
+    elif k == "new_adjoint_sample":
+        # one more evaluation of the adjoint of a LinearOperator (its class constraints also depend on those samples)
+        lin = [i for i, f in enumerate(env.F) if hasattr(f, "T")]
+        if lin:
+            it.step(["adjoint", lin[0], ed[1]])
     elif k == "add_lmi_t":
         if not env.declared_metrics:
             return
